@@ -16,10 +16,19 @@ import (
 	"github.com/shopspring/decimal"
 )
 
+// round6pre: blocks about what a FIRST failure leaves behind in the process; they run before everything else
+func round6pre(c *Ctx) {
+	switch c.Prop {
+	case "C11":
+		r6AsJSONAfterFailure(c)
+	}
+}
+
 func round6(c *Ctx) {
 	switch c.Prop {
 	case "C07", "C10":
 		r6AsJSON(c)
+		r6SelfMarshallingCarriers(c)
 	case "C05":
 		r6NumbersKeptAsText(c)
 		r6HugeUnsigned(c)
@@ -34,7 +43,6 @@ func round6(c *Ctx) {
 	case "C11":
 		r6AsJSON(c)
 		r6ObjectValuedArguments(c)
-		r6AsJSONAfterFailure(c)
 	}
 }
 
@@ -339,3 +347,16 @@ func runOp(op mpath.Operation, data any) (out Outcome) {
 }
 
 func jsonInt(i int) string { return fmt.Sprint(i) }
+
+// objects carried by a struct type that has MarshalJSON / MarshalText: the same answers as on maps and plain structs
+func r6SelfMarshallingCarriers(c *Ctx) {
+	mp := func(k string, n float64) *TV { return tvMap("str", [][2]any{kv("K", tvStr(k)), kv("N", tvF64(n))}) }
+	st := func(k string, n float64) *TV { return tvStruct([][3]any{{"K", 1, tvStr(k)}, {"N", 1, tvF64(n)}}) }
+	doc := func(o func(string, float64) *TV) *TV {
+		return tvMap("str", [][2]any{kv("o", o("abc", 2)), kv("rows", tvSlice(1, o("p", 1), o("q", 5))), kv("p", tvPtr(o("behind", 3)))})
+	}
+	for _, q := range []string{"$.o.k", "$.o.n.Add(1)", `$.o.RemoveKeysByPrefix("k")`, `$.o.RemoveKeysBySuffix("n").k`, `$.o.RemoveKeysByRegex("^K")`, "$.o.Sum()", "$.o.IsEmpty()", "$.o.IsNull()", "$.rows.n.Sum()",
+		`$.rows.First().RemoveKeysByPrefix("n")`, `$.rows.Select("$.k")`, "$.rows[@.n.Greater(2)].k", "$.p.k", `$.p.RemoveKeysByPrefix("k").n`, "$.rows.Count()", "$.o.Maximum()", `$.rows.Last().RemoveKeysByRegex("n").k`} {
+		c.sameAcross(q, []string{"map", "struct", "self-marshalling-struct"}, []*TV{doc(mp), doc(st), doc(tvMarshObj)}, "round6/self-marshalling-carriers")
+	}
+}
